@@ -288,6 +288,7 @@ type c18Shadow struct {
 	mcpOn    bool
 	mcpOwner uint64
 	clock    int64
+	script   bool
 }
 
 func c18Node(id uint64, voter bool) state.Node {
@@ -388,7 +389,58 @@ func (s *c18Shadow) next(g *Gen) command.Command {
 			return s.genInit(g, cmd, mode)
 		}
 	}
-	kind := g.R.Pick(3, 10, 4, 5, 12, 6, 8, 5, 8, 6, 8, 8, 4, 5, 5)
+	// steer towards commands that can take effect in the state the shadow expects
+	w := []int{3, 10, 4, 5, 12, 3, 1, 1, 1, 1, 1, 8, 4, 5, 5}
+	freeSlot, moveTask, bootTask, anyTask := false, false, false, false
+	for sl := uint32(1); sl <= s.slotCnt; sl++ {
+		t := s.tasks[sl]
+		if s.slots[sl] != nil && t == nil {
+			freeSlot = true
+		}
+		if t != nil {
+			anyTask = true
+			if t.kind == state.TaskKindSlotReplicaMove {
+				moveTask = true
+			}
+			if t.kind == state.TaskKindBootstrap {
+				bootTask = true
+			}
+		}
+	}
+	if len(s.slots) == 0 {
+		w[4] = 30
+	}
+	if freeSlot && len(s.nodes) > 3 {
+		w[5] = 14
+	}
+	if moveTask {
+		w[6], w[7] = 22, 10
+	}
+	if anyTask {
+		w[8], w[9] = 9, 7
+	}
+	if bootTask {
+		w[10] = 14
+	}
+	kind := g.R.Pick(w...)
+	if s.script && g.R.Chance(75) {
+		// follow the life cycle: bootstrap -> progress -> complete -> replica move -> phases -> commit
+		switch {
+		case len(s.slots) == 0:
+			kind = 4
+		case bootTask && g.R.Chance(60):
+			kind = 10
+		case bootTask:
+			kind = 8
+		case moveTask:
+			kind = 6 + g.R.Pick(3, 1)
+		case freeSlot && len(s.nodes) > 3:
+			kind = 5
+		case anyTask:
+			kind = 8
+		}
+		g.Count("gen:scripted-step")
+	}
 	switch kind {
 	case 0:
 		return s.genInit(g, cmd, mode)
@@ -869,6 +921,9 @@ func (s *c18Shadow) next(g *Gen) command.Command {
 		owner := uint64(1)
 		if len(ids) > 0 {
 			owner = ids[g.R.Intn(len(ids))]
+			if s.nodes[owner].JoinState != state.NodeJoinStateActive {
+				owner = 1
+			}
 		}
 		if s.mcpOn && g.R.Chance(70) {
 			owner = s.mcpOwner
@@ -901,6 +956,9 @@ func (s *c18Shadow) next(g *Gen) command.Command {
 func (s *c18Shadow) genInit(g *Gen, cmd command.Command, mode int) command.Command {
 	cmd.Kind = command.KindInitClusterState
 	n := g.R.Range(3, 5)
+	if s.script {
+		n = 5
+	}
 	slots := uint32(g.R.Range(2, 4))
 	in := &command.InitClusterState{ClusterID: "wk-c18", Config: state.ClusterConfig{SlotCount: slots, HashSlotCount: 16, ReplicaCount: 3, DefaultCapacityWeight: 10}}
 	if s.inited {
@@ -986,11 +1044,11 @@ func genC18(g *Gen) {
 	for c := 0; c < g.N; c++ {
 		g.Case()
 		short := c%2 == 0
-		n := g.R.Range(7, 16)
+		n := g.R.Range(8, 22)
 		if short {
 			n = g.R.Range(3, 6)
 		}
-		sh := &c18Shadow{nodes: map[uint64]state.Node{}, slots: map[uint32]*c18Slot{}, tasks: map[uint32]*c18Task{}, slotCnt: 3}
+		sh := &c18Shadow{nodes: map[uint64]state.Node{}, slots: map[uint32]*c18Slot{}, tasks: map[uint32]*c18Task{}, slotCnt: 3, script: g.R.Chance(45)}
 		idx := uint64(g.R.Range(1, 5))
 		term := uint64(1)
 		for i := 0; i < n; i++ {
